@@ -20,7 +20,7 @@ def real_typecheck(node, allowed):
         typing.typecheck(node, classes if len(classes) > 1 else classes[0], "field")
     except ex.ArgumentTypeException as e:
         from sexpr import hexs
-        return f"lib ArgumentTypeException {hexs(e.function_name or '')}"
+        return f"lib ArgumentTypeException {hexs(str(getattr(e, 'function_name', '<no-attribute-function_name>') or ''))}"
     except Exception as e:  # noqa
         return "foreign " + type(e).__name__
     return "ok unit"
